@@ -256,7 +256,10 @@ def adm_family(draw, max_sites=3):
         name = ["RENC", "UKY", "LBNL"][i]
         b = _B(draw, f"adm-site-{s}")
         sw, ns, tps = _site(b, s, name, trunks=draw(st.integers(1, 2)), max_workers=2, max_comps=2)
-        _annotate(b, [draw(st.sampled_from(DEL_IDS))], draw(st.sampled_from(["mixed", "all-both", "sparse"])),
+        # the delegation id is normally a name like 'primary'; a guid-keyed advertisement may use the model's own
+        # graph id as delegation id (generate_adms(delegation_guids={g: g}))
+        site_del = draw(st.sampled_from(DEL_IDS + [b.gid]))
+        _annotate(b, [site_del], draw(st.sampled_from(["mixed", "all-both", "sparse"])),
                   multi_id=False, max_pools=1)
         # split speaking: the site delegates the CAPACITY of some of its trunk ports (uplink bandwidth) while the
         # network model delegates their LABELS (vlan ranges) - one speaker per delegation kind on a shared element
@@ -270,7 +273,7 @@ def adm_family(draw, max_sites=3):
         shared.append((sw, ns, tps, {n: {"cls": b.index[n]["cls"], "props": b.index[n]["props"]} for n in [sw, ns] + tps}))
     if with_net:
         b = _B(draw, "adm-net")
-        did = draw(st.sampled_from(DEL_IDS))
+        did = draw(st.sampled_from(DEL_IDS + [b.gid]))
         for sw, ns, tps, idx in shared:
             for n in [sw, ns] + tps:
                 c = {"id": n, "cls": idx[n]["cls"], "props": dict(idx[n]["props"])}
